@@ -2278,3 +2278,17 @@ Proof.
     destruct (ev_cycle_completed (reported it)); try discriminate H; inversion H; subst;
     (split; [split; [intro E; try discriminate E; split; reflexivity|intros [E1 E2]; try discriminate E1; try discriminate E2; reflexivity]|reflexivity]).
 Qed.
+
+Lemma cycle_completed_once_step : forall auto pa bufsize occ m rem c x log,
+  cycle_inv occ m rem -> cstep_g pa bufsize m c = Ok (x, log) ->
+  let it := mk_item auto m c x log in
+  exists rem',
+    turn_entries rem (it_log it) = Some rem' /\
+    (ev_cycle_completed (reported it) = true <-> (sched_ran it = true /\ rem' = [])) /\
+    cycle_inv occ (it_m it) (if ev_cycle_completed (reported it) then occ else rem').
+Proof.
+  intros auto pa bufsize occ m rem c x log HI H it.
+  destruct (cycle_step auto pa bufsize occ m rem c x log HI H) as (rem2 & Hm & HI').
+  destruct (cycle_item_spec _ _ _ _ Hm) as (rem' & Ht & Hiff & ->).
+  exists rem'. split; [exact Ht|]. split; [exact Hiff|exact HI'].
+Qed.
